@@ -126,17 +126,26 @@ def analyse(ctx, name, removing):
     f, outs = run_editor(ctx, name)
     ctx.require(len(outs) >= 1, f"no path through {name}")
     for st, ex in outs:
-        # --- fan-out: each object of each log class owns exactly one per-step loop
-        fo = FanOut(ctx, lambda ev: None, loop_match=lambda lp: ("steploop", is_step_loop(ctx, lp)) if is_step_loop(ctx, lp) else None)
-        counts = fo.counts(st.trace)
+        # --- fan-out: every log of every object of each log class is edited by exactly one per-step loop (one loop for all logs of
+        # the object, or one loop per log -- the logs are independent lists)
         for cls in LOG_CLASSES:
-            got = counts.get(("steploop", cls), {0})
+            worst = None
+            for attr in logs_of(cls):
+                def lm(lp, cls=cls, attr=attr):
+                    if is_step_loop(ctx, lp) != cls:
+                        return None
+                    return ("steploop", cls, attr) if any(e.attr == attr for tr, ex2 in lp.alts for e in edit_events(ctx, tr, lp.self_obj, cls)) else None
+                fo = FanOut(ctx, lambda ev: None, loop_match=lm)
+                got = fo.counts(st.trace).get(("steploop", cls, attr), {0})
+                if got != {1} and worst is None:
+                    worst = (attr, got)
             con = f"{PROJECT}.{name}:reaches:{cls}"
-            ctx.instance(con, sample={"class": cls, "per_object_step_loops": sorted(got)})
-            if got != {1}:
+            ctx.instance(con, sample={"class": cls, "logs": len(logs_of(cls)), "first_irregular": None if worst is None else [worst[0], sorted(worst[1])]})
+            if worst is not None:
+                attr, got = worst
                 what = "never" if got == {0} else ("not for every object (skipped, filtered or conditional traversal)" if (0 in got or -1 in got) else f"{sorted(got)} times")
-                ctx.violation(con, f.loc(), f"{name}: the per-step logs of {cls} objects are edited {what}; every object must be edited exactly once",
-                              {"counts": sorted(got)})
+                ctx.violation(con, f.loc(), f"{name}: the per-step logs of {cls} objects are edited {what} ({cls}.{attr}); every object must be edited exactly once",
+                              {"counts": sorted(got), "log": attr})
         # --- every step loop: order, vectors, guards, shapes
         for lp in all_loops(st.trace):
             cls = is_step_loop(ctx, lp)
@@ -169,12 +178,11 @@ def analyse(ctx, name, removing):
                                       f"{name}: log {cls}.{e.attr} is edited by `{e.op}` with {len(e.args)} argument(s) "
                                       f"{'not at the step index ' if e.args and e.args[0] != lp.var else ''}(expected {want_op}(step{'' if removing else ', value'}))")
                 ctx.instance(f"{con0}:vector", cells=len(need), sample={"owner_class": cls, "vector": vec})
-                vals = set(vec.values())
-                if vals not in ({0}, {1}):
-                    missing = sorted(a for a, n in vec.items() if n == 0)
-                    multi = sorted(a for a, n in vec.items() if n > 1)
-                    ctx.violation(f"{con0}:edit-vector:{','.join(missing or multi)}", lp.loc,
-                                  f"{name}: for one step, {cls} logs are edited unevenly: {vec} (each log must get exactly one edit, or none of them)")
+                multi = sorted(a for a, n in vec.items() if n > 1)
+                if multi:
+                    ctx.violation(f"{con0}:edit-vector:{','.join(multi)}", lp.loc,
+                                  f"{name}: for one step, {cls} logs are edited more than once in one pass: {vec} (each log gets one edit per step; which logs a pass covers is "
+                                  f"decided by the traversal count above)")
                 # guards (R18.2) are reported under their own rule by the caller
                 conds = [c for c in tr if isinstance(c, Cond)]
                 guard = [bound_test_on_log(c, stepname, cls) == c.truth for c in conds if bound_test_on_log(c, stepname, cls) is not None]
